@@ -121,9 +121,58 @@ func trickyString(r *kernel.Rand) string {
 	return sb.String()
 }
 
+// numberLiteral: a number as it may be spelled in an input document; the command passes literals
+// through verbatim whatever their length (lengths around the sizes of formatting buffers).
+func numberLiteral(r *kernel.Rand) string {
+	digits := func(n int) string {
+		var sb strings.Builder
+		for i := 0; i < n; i++ {
+			d := r.Intn(10)
+			if i == 0 && d == 0 {
+				d = 1 + r.Intn(9)
+			}
+			sb.WriteByte(byte('0' + d))
+		}
+		return sb.String()
+	}
+	n := kernel.Pick(r, []int{1, 2, 9, 15, 16, 17, 19, 20, 31, 32, 33, 62, 63, 64, 65, 66, 100, 127, 128, 129, 255, 256, 257, 400, 1000, 5000})
+	var s string
+	switch r.Intn(7) {
+	case 0:
+		s = digits(n)
+	case 1:
+		s = digits(1+r.Intn(3)) + "." + digits(n)
+	case 2:
+		s = "0." + strings.Repeat("0", r.Intn(n+1)) + digits(1+r.Intn(n))
+	case 3:
+		s = digits(n) + kernel.Pick(r, []string{"e", "E", "e+", "E-", "e-"}) + kernel.Pick(r, []string{"0", "1", "5", "005", "17", "300"})
+	case 4:
+		s = digits(1) + "." + digits(n) + kernel.Pick(r, []string{"e", "E+", "e-"}) + strconv.Itoa(r.Intn(400))
+	case 5:
+		s = digits(n) + "." + strings.Repeat("0", 1+r.Intn(5))
+	default:
+		s = kernel.Pick(r, []string{"0", "0.0", "0e0", "0E-0", "1e0", "1.0e0", "10e-1", "0.10", "1.50", "100e-2", "1E400", "1e-400", "0.0e400"})
+	}
+	if r.Bool(0.3) {
+		s = "-" + s
+	}
+	return s
+}
+
 func genDocs(r *kernel.Rand, n int) []string {
 	docs := make([]string, n)
 	for i := range docs {
+		if r.Bool(0.1) {
+			switch r.Intn(3) {
+			case 0:
+				docs[i] = numberLiteral(r)
+			case 1:
+				docs[i] = fmt.Sprintf(`{"id":%d,"v":%s,"w":[%s]}`, i+1, numberLiteral(r), numberLiteral(r))
+			default:
+				docs[i] = "[" + numberLiteral(r) + "," + numberLiteral(r) + ",{\"n\":" + numberLiteral(r) + "}]"
+			}
+			continue
+		}
 		if r.Bool(0.12) {
 			switch r.Intn(3) {
 			case 0:
